@@ -233,6 +233,35 @@ pub fn run(prop: &'static str, tier: &str) -> i32 {
         all.merge(a);
     }
 
+    // phase 4d: multi-byte characters lying across every power-of-two byte offset up to 128 KiB (chunked
+    // processing validates or copies text per block): a uniform text of 2-, 3- and 4-byte characters behind
+    // 0..width-1 ASCII bytes, so that some character straddles offset P (and every multiple of P) in each
+    // alignment
+    {
+        let powers: Vec<usize> = if quick { vec![64, 4_096, 65_536, 131_072] } else { vec![16, 32, 64, 128, 256, 512, 1_024, 2_048, 4_096, 8_192, 16_384, 32_768, 65_536, 131_072, 262_144] };
+        let units: Vec<(Proto, Layer, usize)> = protos.iter().flat_map(|p| Layer::ALL.iter().flat_map({ let powers = powers.clone(); move |l| powers.clone().into_iter().map(move |pw| (*p, *l, pw)) })).collect();
+        let accs = par_units(&units, |(p, l, pw)| {
+            let al = full_alphabet(*p, true);
+            let mut acc = Acc::default();
+            let seed = if p.is_local() { Some(al.seeds[2].as_slice()) } else { None };
+            for ch in ["\u{00e9}", "\u{20ac}", "\u{1f600}"] {
+                for lead in 0..ch.len() {
+                    let mut m = "a".repeat(lead);
+                    while m.len() < *pw + 2 * ch.len() {
+                        m.push_str(ch);
+                    }
+                    let case = IssueCase::new(*p, *l, &al.keys[0], seed, &m, &None, &None);
+                    evaluate(&case, &mut acc, prop);
+                    acc.choice_points += 1;
+                }
+            }
+            acc
+        });
+        let a = Acc::merge_all(accs);
+        phases.push(json!({"phase": "multi-byte characters across power-of-two offsets", "executions": a.executions, "offsets": powers}));
+        all.merge(a);
+    }
+
     // phase 4c: at the builder layers "the message" is a set of claims. Structured claim sets (values shaped like
     // their own key, deep / empty containers, number classes, escapes, many claims, unusual keys) must come back
     // from the matching parser member for member
